@@ -215,6 +215,10 @@ def jobsBuiltin (s : JobList) (args : List Str) : Out × JobList :=
 
 /-! ### `bg` -/
 
+/-- `set_current_job(index).ok()` -/
+def JobList.setCurrentOk (s : JobList) (i : Nat) : JobList :=
+  match s.setCurrentJob i with | .ok s' => s' | .error _ => s
+
 /-- `bg::resume_job_by_index` for an occupied `index` (`kill` succeeds: the process group of an
     alive job exists).  Returns the line written or the error class. -/
 def bgResume (s : JobList) (index : Nat) : Except String Str × JobList :=
@@ -227,8 +231,7 @@ def bgResume (s : JobList) (index : Nat) : Except String Str × JobList :=
       let line := ['['] ++ natStr (index + 1) ++ [']', ' '] ++ job.name ++ ['\n']
       let s1 := if job.state.isAlive then s.expect index (some .running) else s
       let s2 := s1.setLastAsync job.pid
-      let s3 := match s2.setCurrentJob index with | .ok s' => s' | .error _ => s2
-      (.ok line, s3)
+      (.ok line, s2.setCurrentOk index)
 
 /-- `bg::resume_job_by_id` -/
 def bgResumeId (s : JobList) (op : Str) : Except String Str × JobList :=
